@@ -272,8 +272,56 @@ def glsl_layout(ty, structs, std140):
     raise ValueError("layout of type " + str(ty))
 
 
+def wgsl_default(ti, h):
+    """(align, size) of IR type h under the WGSL default layout rules (no @align/@size attributes)"""
+    t = ti.inner(h)
+    tt = t["_t"]
+    if tt in ("ScalarType", "AtomicType"):
+        return 4, 4
+    if tt == "VectorType":
+        n = t["Size"]
+        return (8 if n == 2 else 16), 4 * n
+    if tt == "MatrixType":
+        va, vs = (8, 8) if t["Rows"] == 2 else (16, 12 if t["Rows"] == 3 else 16)
+        return va, t["Columns"] * round_up(vs, va)
+    if tt == "ArrayType":
+        a, sz = wgsl_default(ti, t["Base"])
+        n = t["Size"]["Constant"]
+        return a, round_up(sz, a) * (n if n is not None else 1)
+    if tt == "StructType":
+        off, amax = 0, 1
+        for m in t["Members"]:
+            a, sz = wgsl_default(ti, m["Type"])
+            off = round_up(off, a) + sz
+            amax = max(amax, a)
+        return amax, round_up(off, amax)
+    raise ValueError(tt)
+
+
+def uses_layout_attributes(ti, h):
+    """does IR type h (or a type inside it) deviate from the WGSL default layout, i.e. use @align/@size/@stride?"""
+    t = ti.inner(h)
+    tt = t["_t"]
+    if tt == "ArrayType":
+        a, sz = wgsl_default(ti, t["Base"])
+        return t["Stride"] != round_up(sz, a) or uses_layout_attributes(ti, t["Base"])
+    if tt == "StructType":
+        off = 0
+        for m in t["Members"]:
+            a, sz = wgsl_default(ti, m["Type"])
+            off = round_up(off, a)
+            if m["Offset"] != off or uses_layout_attributes(ti, m["Type"]):
+                return True
+            off += sz
+        return t["Span"] != wgsl_default(ti, h)[1] and not (
+            t["Members"] and ti.inner(t["Members"][-1]["Type"])["_t"] == "ArrayType"
+            and ti.inner(t["Members"][-1]["Type"])["Size"]["Constant"] is None)
+    return False
+
+
 def ir_layout_mismatches(ti, h, ty, structs, std140, path="", out=None):
-    """compare the IR's Offset/Stride/Span of type h with the GLSL layout of the emitted type ty"""
+    """compare the IR's Offset/Stride of type h with the GLSL layout of the emitted type ty;
+    entries (path, description, cause) with cause in matCx2-std140 | explicit-attributes | other"""
     if out is None:
         out = []
     t = ti.inner(h)
@@ -281,34 +329,41 @@ def ir_layout_mismatches(ti, h, ty, structs, std140, path="", out=None):
     a, s, d = glsl_layout(ty, structs, std140)
     if tt == "StructType":
         if ty[0] != "st" or d is None:
-            out.append((path, "struct emitted as " + str(ty[0])))
+            out.append((path, "struct emitted as " + str(ty[0]), "other"))
             return out
         offs = d[1]
         if len(offs) != len(t["Members"]):
-            out.append((path, "member count %d vs %d" % (len(t["Members"]), len(offs))))
+            out.append((path, "member count %d vs %d" % (len(t["Members"]), len(offs)), "other"))
             return out
+        cause = "explicit-attributes" if uses_layout_attributes(ti, h) else "other"
         for m, (name, off, sz, dd, mt) in zip(t["Members"], offs):
-            if m["Offset"] != off:
-                out.append((path + "." + name, "offset IR %d vs GLSL %d" % (m["Offset"], off)))
+            n0 = len(out)
             ir_layout_mismatches(ti, m["Type"], mt, structs, std140, path + "." + name, out)
-        if t["Members"] and ti.inner(t["Members"][-1]["Type"])["_t"] == "ArrayType" \
-                and ti.inner(t["Members"][-1]["Type"])["Size"]["Constant"] is None:
-            pass
-        elif t["Span"] != s:
-            out.append((path, "struct size IR %d vs GLSL %d" % (t["Span"], s)))
+            if m["Offset"] != off:
+                inner_cause = out[n0][2] if len(out) > n0 else None
+                prev_mat = any(c == "matCx2-std140" for _, _, c in out)
+                out.append((path + "." + name, "offset IR %d vs GLSL %d" % (m["Offset"], off),
+                            "matCx2-std140" if prev_mat and cause == "other" else cause))
+        # (the struct's own size matters only through array strides and following members' offsets)
     elif tt == "ArrayType":
         if ty[0] != "arr":
-            out.append((path, "array emitted as " + str(ty[0])))
+            out.append((path, "array emitted as " + str(ty[0]), "other"))
             return out
-        if t["Stride"] != d[1]:
-            out.append((path + "[]", "array stride IR %d vs GLSL %d" % (t["Stride"], d[1])))
+        n0 = len(out)
         ir_layout_mismatches(ti, t["Base"], ty[1], structs, std140, path + "[]", out)
+        if t["Stride"] != d[1]:
+            if len(out) > n0:
+                cause = out[n0][2]            # consequence of a mismatch inside the element
+            else:
+                cause = "explicit-attributes" if uses_layout_attributes(ti, h) else "other"
+            out.append((path + "[]", "array stride IR %d vs GLSL %d" % (t["Stride"], d[1]), cause))
     elif tt == "MatrixType":
         if ty[0] != "m":
-            out.append((path, "matrix emitted as " + str(ty[0])))
+            out.append((path, "matrix emitted as " + str(ty[0]), "other"))
             return out
         # WGSL: column stride = roundUp(alignOf(vecR), sizeOf(vecR)): 8 for R=2, 16 for R=3,4
         wg = 8 if t["Rows"] == 2 else 16
         if wg != d[1]:
-            out.append((path, "matrix column stride WGSL %d vs GLSL %d" % (wg, d[1])))
+            out.append((path, "matrix column stride WGSL %d vs GLSL %d" % (wg, d[1]),
+                        "matCx2-std140" if (std140 and t["Rows"] == 2) else "other"))
     return out
